@@ -99,8 +99,13 @@ struct Log {
 
 pub fn run(ctx: &mut Ctx) -> Result<(), Stop> {
     let skew = ctx.choose("c13.select_rng_skew", 8);
-    let d_ns: u64 = [10_000_000u64, 2_000_000, 100_000_000, 1_000_000_000]
-        [ctx.choose("c13.interval", 4) as usize];
+    // The last two are the degenerate but legal intervals: zero (every allowed execution
+    // may start at once) and Duration::MAX ("never speculate"; u64::MAX stands for it).
+    let d_ns: u64 = [10_000_000u64, 2_000_000, 100_000_000, 1_000_000_000, 0, u64::MAX]
+        [ctx.weighted("c13.interval", &[4, 4, 4, 4, 3, 2]) as usize];
+    let degenerate = d_ns == 0 || d_ns == u64::MAX;
+    // Unit of the scripted completion delays: d/2, or 5 ms when d is degenerate.
+    let half_ns: u64 = if degenerate { 5_000_000 } else { d_ns / 2 };
     let max = ctx.choose("c13.max_retry_count", 5) as usize;
     let n_scripted = 1 + ctx.choose("c13.n_fibers", 5) as usize;
     let mut script: Vec<Fiber> = Vec::new();
@@ -110,12 +115,18 @@ pub fn run(ctx: &mut Ctx) -> Result<(), Stop> {
     hash.u64(n_scripted as u64);
     for _ in 0..n_scripted {
         let delay_half = ctx.choose("c13.delay", 7);
-        let outcome = match ctx.choose("c13.outcome", 4) {
+        let mut outcome = match ctx.choose("c13.outcome", 4) {
             0 => Outcome::Success,
             1 => Outcome::Definitive,
             2 => Outcome::Ignorable,
             _ => Outcome::PlanExhausted,
         };
+        // With "never speculate" and executions still allowed, a call whose only running
+        // execution fails ignorably waits for a timer that is (practically) never due -
+        // by design, not a hang: such scripts are not generated.
+        if d_ns == u64::MAX && max > 0 && script.is_empty() && outcome == Outcome::Ignorable {
+            outcome = Outcome::Success;
+        }
         let flavour = match outcome {
             Outcome::Definitive => ctx.choose("c13.flavour", 2),
             Outcome::Ignorable => ctx.choose("c13.flavour", 3),
@@ -155,8 +166,9 @@ pub fn run(ctx: &mut Ctx) -> Result<(), Stop> {
         .build()
         .expect("tokio runtime");
     let log: Rc<RefCell<Log>> = Rc::new(RefCell::new(Log::default()));
-    let d = Duration::from_nanos(d_ns);
-    let half = Duration::from_nanos(d_ns / 2);
+    let d = if d_ns == u64::MAX { Duration::MAX } else { Duration::from_nanos(d_ns) };
+    let half = Duration::from_nanos(half_ns);
+    let deadline = Duration::from_nanos(half_ns) * 2000;
     let log2 = Rc::clone(&log);
     let (ret_ns, result) = rt.block_on(async move {
         for _ in 0..skew {
@@ -188,7 +200,7 @@ pub fn run(ctx: &mut Ctx) -> Result<(), Stop> {
             }
         };
         let r = tokio::time::timeout(
-            d * 1000,
+            deadline,
             scylla::verif::speculative_execute(max, d, generator),
         )
         .await;
@@ -200,7 +212,7 @@ pub fn run(ctx: &mut Ctx) -> Result<(), Stop> {
     let fibers: Vec<Fiber> = (0..n).map(&fiber_of).collect();
     // Scheduled completion instant of every started fiber.
     let c: Vec<u128> = (0..n)
-        .map(|k| log.starts[k].0 + (fibers[k].delay_half as u128) * (d_ns as u128 / 2))
+        .map(|k| log.starts[k].0 + (fibers[k].delay_half as u128) * (half_ns as u128))
         .collect();
     if ctx.trace_on {
         for k in 0..n {
@@ -220,7 +232,7 @@ pub fn run(ctx: &mut Ctx) -> Result<(), Stop> {
         }
         ctx.out.trace.push(match &result {
             Some(r) => format!("t={ret_ns}ns returned {}", result_id(r)),
-            None => format!("t={ret_ns}ns virtual deadline (1000*d) reached, no return"),
+            None => format!("t={ret_ns}ns virtual deadline reached, no return"),
         });
     }
     ctx.out.hash = hash.finish();
@@ -243,7 +255,7 @@ pub fn run(ctx: &mut Ctx) -> Result<(), Stop> {
         return ctx.fail(
             "c13.hang",
             format!(
-                "the call did not return within 1000*d of virtual time ({n} executions started, last scheduled completion t={}ns) [{cfg}]",
+                "the call did not return within 1000*d (10 s for a degenerate d) of virtual time ({n} executions started, last scheduled completion t={}ns) [{cfg}]",
                 c.iter().max().copied().unwrap_or(0)
             ),
         );
@@ -261,6 +273,7 @@ pub fn run(ctx: &mut Ctx) -> Result<(), Stop> {
                 Outcome::Success => {}
             }
             let on_tick = c[k] > 0
+                && d_ns > 0
                 && c[k] % (d_ns as u128) == 0
                 && c[k] / (d_ns as u128) <= max as u128;
             if on_tick {
@@ -273,6 +286,12 @@ pub fn run(ctx: &mut Ctx) -> Result<(), Stop> {
     }
     if n == 1 + max {
         ctx.probe("all_allowed_executions_started");
+    }
+    if d_ns == 0 {
+        ctx.probe("interval_zero");
+    }
+    if d_ns == u64::MAX {
+        ctx.probe("interval_never");
     }
     // ---- c13.too_many / c13.too_early ---------------------------------------
     if n > 1 + max {
